@@ -87,9 +87,22 @@ def nested_cases(tier, seed):
             i += 1
 
 
+def concurrent_big_value_cases(tier, seed):
+    """Several branches finish steps with large nested (non-plain-JSON) results at the same moment, so the shared default
+    serializer is inside serialize() on several threads at once; the block then suspends and the recorded values are read back."""
+    for j in range(4 if tier == "quick" else 30):
+        nb = [4, 6, 8][j % 3]
+        rows = [120, 300][j % 2]
+        brs = [{"body": [{"k": "step", "val": [{"id": r, "pair": (r, str(b)), "tags": ["x", b]} for r in range(rows)]}, {"k": "wait", "s": 1}, {"k": "step", "val": b}]} for b in range(nb)]
+        node = {"k": "par", "branches": brs, "cfg": {"tol_n": 99}}
+        yield {"label": "concurrent-large-results", "prog": {"body": [node, {"k": "step", "val": "end"}]}, "prog_seed": 25900 + j, "pattern": {"p": "plain"},
+               "opts": {"perturb": {"p": 0.02, "seed": seed * 7 + j, "files": ["serdes.py"], "sleep_p": 0.3, "max_sleep": 0.001}} if j % 2 else {}}
+
+
 def explicit3(tier, seed):
     yield from explicit2(tier, seed)
     yield from nested_cases(tier, seed)
+    yield from concurrent_big_value_cases(tier, seed)
 
 
 SPEC = Spec(
